@@ -1096,43 +1096,48 @@ err:
 static int
 _bucket_clear(Bucket *self)
 {
-    const int len = self->len;
-    /* Don't declare i at this level.  If neither keys nor values are
-     * PyObject*, i won't be referenced, and you'll get a nuisance compiler
-     * wng for declaring it here.
+    /* Detach everything from the bucket before releasing any of it:
+     * releasing a key or a value may run arbitrary code (a finalizer, a
+     * weakref callback) that looks at - or changes - this very bucket.
      */
-    self->len = self->size = 0;
+    const int len = self->len;
+    KEY_TYPE *keys = self->keys;
+    VALUE_TYPE *values = self->values;
+    Bucket *next = self->next;
 
-    if (self->next)
-    {
-        Py_DECREF(self->next);
-        self->next = NULL;
-    }
+    self->len = self->size = 0;
+    self->keys = NULL;
+    self->values = NULL;
+    self->next = NULL;
+
+    Py_XDECREF(next);
 
     /* Silence compiler warning about unused variable len for the case
         when neither key nor value is an object, i.e. II. */
     (void)len;
 
-    if (self->keys)
+    /* Don't declare i at function level.  If neither keys nor values are
+     * PyObject*, i won't be referenced, and you'll get a nuisance compiler
+     * wng for declaring it there.
+     */
+    if (keys)
     {
 #ifdef KEY_TYPE_IS_PYOBJECT
         int i;
         for (i = 0; i < len; ++i)
-            DECREF_KEY(self->keys[i]);
+            DECREF_KEY(keys[i]);
 #endif
-        free(self->keys);
-        self->keys = NULL;
+        free(keys);
     }
 
-    if (self->values)
+    if (values)
     {
 #ifdef VALUE_TYPE_IS_PYOBJECT
         int i;
         for (i = 0; i < len; ++i)
-            DECREF_VALUE(self->values[i]);
+            DECREF_VALUE(values[i]);
 #endif
-        free(self->values);
-        self->values = NULL;
+        free(values);
     }
     return 0;
 }
@@ -1173,9 +1178,20 @@ bucket__p_deactivate(Bucket *self, PyObject *args, PyObject *keywords)
             return NULL;
         }
         if (ghostify) {
-            if (_bucket_clear(self) < 0)
-            return NULL;
+            /* Become a ghost first and release the contents afterwards:
+             * releasing them may run arbitrary code (a finalizer, a weakref
+             * callback) that looks at this node, and it must then find a
+             * ghost - which is simply loaded again - not a node that is
+             * still up to date and already empty.  Ghostification drops
+             * the cache's reference to the node: hold one meanwhile.
+             */
+            int status;
+            Py_INCREF(self);
             PER_GHOSTIFY(self);
+            status = _bucket_clear(self);
+            Py_DECREF(self);
+            if (status < 0)
+            return NULL;
         }
     }
     Py_INCREF(Py_None);
